@@ -212,7 +212,7 @@ def run_unit(unit, ctx):
             try:
                 from formak import python as _py
 
-                cm2 = {k_: v_ * (1.0 + 3e-6) + 2e-6 for k_, v_ in defn["calibration_map"].items()}
+                cm2 = {k_: v_ * (1.0 + 3e-6) for k_, v_ in defn["calibration_map"].items()}
                 m2 = _py.compile(b.ui_model, {b.sym(k_): v_ for k_, v_ in cm2.items()},
                                  config={"common_subexpression_elimination": cse})
                 pt2 = dict(points[0])
